@@ -201,7 +201,7 @@ class AASXReader:
             if obj.id in object_store:
                 if override_existing:
                     logger.info("Overriding existing object in  ObjectStore with {} ...".format(obj))
-                    object_store.discard(obj)
+                    object_store.discard(object_store.get_identifiable(obj.id))
                 else:
                     logger.warning("Skipping {}, since an object with the same id is already contained in the "
                                    "ObjectStore".format(obj))
